@@ -47,8 +47,8 @@ def registry_events(states, seed):
             "mean": [np.array(vals, dtype=float) * 0.7],
             "max": [np.array(vals, dtype=float) / 3, np.array(vals, dtype=np.int64), np.array(["2000-01-01"], dtype="datetime64[D]")[0] + np.array(vals)],
             "min": [np.array(vals, dtype=float) / 3, np.array(vals, dtype=np.int64), np.array(["2000-01-01"], dtype="datetime64[D]")[0] + np.array(vals)],
-            "any": [np.array(vals) > 0, (np.array(vals) > 0).astype(np.int64)],
-            "all": [np.array(vals) > 0, (np.array(vals) >= 0).astype(np.int64)],
+            "any": [np.array(vals) > 0, (np.array(vals) > 0).astype(np.int64), np.array(vals, dtype=np.int64)],      # ints incl. negative values: truthiness
+            "all": [np.array(vals) > 0, (np.array(vals) >= 0).astype(np.int64), np.array(vals, dtype=np.int64)],
         }
         for kind, cols in variants.items():
             for col in cols:
